@@ -114,7 +114,7 @@ def always_exits(stmts: List[ast.stmt]) -> bool:
 
 
 class FactFlow:
-    def __init__(self, func_node: ast.AST, param_types: Optional[Dict[str, tuple]] = None, ival=None, nn_call=None, ret_nonneg=None):
+    def __init__(self, func_node: ast.AST, param_types: Optional[Dict[str, tuple]] = None, ival=None, nn_call=None, ret_nonneg=None, init_facts=None):
         self.node = func_node
         self.facts_at: Dict[int, FrozenSet[Fact]] = {}
         self.types = param_types or {}
@@ -123,7 +123,7 @@ class FactFlow:
         self.ret_nonneg = ret_nonneg
         self.loops: List[dict] = []
         body = func_node.body if not isinstance(func_node, ast.Lambda) else []
-        init: Set[Fact] = set()
+        init: Set[Fact] = set(init_facts or ())
         self.flow(body, frozenset(init))
 
     # ------------------------------------------------------------------ assume
@@ -217,6 +217,18 @@ class FactFlow:
                 out.add(("LEN==", la, strip(tb)))
             if lb is not None:
                 out.add(("LEN==", lb, strip(ta)))
+        elif kind == "NE":
+            if la is not None and strip(tb) == "0":
+                out.add(("T", la))
+                out.add(("LEN>=", la, "1"))
+            if lb is not None and strip(ta) == "0":
+                out.add(("T", lb))
+                out.add(("LEN>=", lb, "1"))
+        if kind == "LT" and la is None and lb is not None and strip(ta).lstrip("-").isdigit() and int(strip(ta)) >= 0:
+            out.add(("LEN>=", lb, str(int(strip(ta)) + 1)))        # c < len(x)
+            out.add(("T", lb))
+        if kind == "LE" and la is None and lb is not None and strip(ta).lstrip("-").isdigit() and int(strip(ta)) >= 1:
+            out.add(("T", lb))
         return out
 
     # ------------------------------------------------------------------ kills
